@@ -19,9 +19,14 @@ from . import engine
 VERIF = engine.VERIF
 
 
+KNOWN_LIMITS = {}
+
+
 def load_catalogue():
     from selftest import catalogue
     importlib.reload(catalogue)
+    KNOWN_LIMITS.clear()
+    KNOWN_LIMITS.update(getattr(catalogue, "KNOWN_LIMITS", {}))
     return catalogue.MUTANTS, catalogue.REFACTORS
 
 
@@ -90,6 +95,10 @@ def run_one(entry, slot, cfgs, baseline):
                 return (mid, "MISSED", "expected %s; new failures: %s" % (missing, sorted(got)), sorted(got))
             return (mid, "caught", "", sorted(got))
         else:
+            if got and mid in KNOWN_LIMITS:
+                why, prefixes = KNOWN_LIMITS[mid]
+                if all(any(k.startswith(p_) for p_ in prefixes) for k in got):
+                    return (mid, "known-limit", why, sorted(got))
             if got:
                 return (mid, "FALSE-ALARM", "refactor raised %s" % sorted(got), sorted(got))
             return (mid, "silent", "", [])
